@@ -254,7 +254,7 @@ def run_check(pid, units, tier="quick", seed=0, level="model_checking", rule=Non
   _UNITS = list(units)
   jobs = [(pid, n, i, tier, seed, known) for i, (n, f) in enumerate(units)]
   workers = workers or int(os.environ.get("WSYM_WORKERS", "16"))
-  unit_timeout = unit_timeout or (300 if tier == "quick" else 1800)
+  unit_timeout = unit_timeout or (900 if tier == "quick" else 3600)
   sums = [None] * len(jobs)
   if os.environ.get("WSYM_SERIAL"):
     for i, j in enumerate(jobs):
@@ -263,6 +263,7 @@ def run_check(pid, units, tier="quick", seed=0, level="model_checking", rule=Non
     ctx = mp.get_context("fork")
     pending = list(range(len(jobs)))
     running = {}  # idx -> (proc, conn, start)
+    last_report = time.time()
     while pending or running:
       while pending and len(running) < workers:
         i = pending.pop(0)
@@ -304,6 +305,9 @@ def run_check(pid, units, tier="quick", seed=0, level="model_checking", rule=Non
         running.pop(i)
       if not done:
         time.sleep(0.05)
+      if os.environ.get("WSYM_PROGRESS") and time.time() - last_report > 60:
+        last_report = time.time()
+        print(f"[progress {pid}] pending {len(pending)} running " + ", ".join(f"{jobs[i][1]} ({time.time() - st:.0f}s)" for i, (p_, pc_, st) in running.items()), file=sys.stderr, flush=True)
   return finish(pid, sums, tier, seed, level, rule, time.time() - t0, extra_cov, assumptions)
 
 
